@@ -63,6 +63,25 @@ def direct_sweep(ld, N):
                     fails.append((n, k, None, f'after the caller modified the list returned by split({k}), split({k}) on the same dataset returns {again if n < 12 else len(again)} instead of {parts if n < 12 else k} shards'))
                 elif list(ds.shard(k, k - 1)) != parts[k - 1]:
                     fails.append((n, k, k - 1, f'after the caller modified the list returned by split({k}), shard({k},{k - 1}) changed'))
+    # shards of BATCHED datasets whose element indices get large (index * batch_size beyond 255 and beyond 65535): every example
+    # exactly once, shards reassemble to the dataset
+    for (n, B, ks) in ([(800, 8, (2, 3)), (70000, 100, (3,))] + ([(3000, 7, (4, 9)), (66000, 2, (2,))] if N > 300 else [])):
+        base = ld.new(list(range(n))).batch(B)
+        whole = [list(b) for b in base]
+        for k in ks:
+            count += 1
+            try:
+                parts = [[list(b) for b in sh] for sh in base.split(k)]
+                sh1 = [list(b) for b in base.shard(k, k - 1)]
+            except Exception as e:
+                fails.append((n, k, None, f'new(range({n})).batch({B}).split({k}) raised {type(e).__name__}: {e}'[:300]))
+                continue
+            flat = [b for p in parts for b in p]
+            if flat != whole:
+                bad = next((i for i, (a, c) in enumerate(zip(flat, whole)) if a != c), min(len(flat), len(whole)))
+                fails.append((n, k, None, f'new(range({n})).batch({B}).split({k}): the concatenated shards differ from the dataset, first at batch {bad}: got {flat[bad][:3] if bad < len(flat) else None}.., expected {whole[bad][:3] if bad < len(whole) else None}..'))
+            elif sh1 != parts[-1]:
+                fails.append((n, k, k - 1, f'new(range({n})).batch({B}).shard({k},{k - 1}) != split({k})[{k - 1}]'))
     return fails, count
 
 
